@@ -332,6 +332,10 @@ impl Store {
                 return Ok(())
             }
         };
+        if matches!(header.update_status, UpdateStatus::LastAttempt(_)) {
+            // The point was never updated successfully: there is no data.
+            return Ok(())
+        }
         let manifest = StoredManifest::read(&mut file).map_err(|err| {
             error!(
                 "Fatal: failed to read file {}: {}",
